@@ -197,9 +197,9 @@ class _CanonLoops(ast.NodeTransformer):
             return out
         out = []
         for i, st in enumerate(stmts):
-            if in_loop and isinstance(st, ast.If) and not st.orelse and len(st.body) == 1 and isinstance(st.body[0], ast.Continue) \
-                    and i + 1 < len(stmts):
-                rest = self._stmts(stmts[i + 1:], in_loop)
+            if in_loop and isinstance(st, ast.If) and len(st.body) == 1 and isinstance(st.body[0], ast.Continue) \
+                    and (i + 1 < len(stmts) or st.orelse):
+                rest = self._stmts(list(st.orelse) + stmts[i + 1:], in_loop)
                 out.append(ast.copy_location(ast.If(test=ast.UnaryOp(op=ast.Not(), operand=st.test), body=rest, orelse=[]), st))
                 return out
             out.extend(self._one(st))
